@@ -148,3 +148,11 @@ pub async fn run_actors<'a, T>(mut actors: Vec<Actor<'a, T>>, policy: &Policy, m
     }
     (outs, trace)
 }
+
+/// printable policy; generated byte schedules are cut at the number of decision points actually used
+pub fn show_policy(p: &Policy, used: usize) -> String {
+    match p {
+        Policy::Bytes(b) => format!("Bytes({:?})", &b[..b.len().min(used)]),
+        other => format!("{other:?}"),
+    }
+}
